@@ -528,8 +528,9 @@ pub fn c12(ctx: &mut Ctx) {
             continue;
         }
         // P: a complete paragraph without double quotes, ending in a terminator + blank line
-        let mut p = match r.below(6) {
+        let mut p = match r.below(7) {
             0 => gen_clause(&mut r, &corpus, 9, 6),
+            6 => format!("{} {}", r.pick(&corpus.sentences).trim_end_matches(['.', '!', '?']), r.pick_str(&["plan B", "in the U.S.A", "see Mr", "item 3", "than I", "point x", "vs", "etc", "e.g", "i.e", "at 5 p.m", "for $5", "to a@b.c", "on http://x.y/z", "the 1st", "in the 1990s", "a.b.c", "No"])),
             1 => format!("{} {}", r.pick(&corpus.sentences), r.pick_str(SPECIALS)),
             2 => format!("{} {}", r.pick(&corpus.sentences), r.pick_str(NUMBERS)),
             3 => gen_unicode(&mut r, &corpus, 8),
